@@ -1113,10 +1113,14 @@ class PhaseField(_IModel):
 
             # elements and pdgs where eigenvalues 1 and 2 are different
             v1_m_v2 = val_e_pg[..., 0] - val_e_pg[..., 1]  # val1 - val2
+            dif12 = np.asarray(v1_m_v2 != 0)
             v1_m_v2[v1_m_v2 == 0] = 1
 
             # compute BetaP and BetaM [e,pg]
-            BetaP = (valp[..., 0] - valp[..., 1]) / v1_m_v2
+            # BetaP = (e_1^+ - e_2^+) / (e_1 - e_2); for a repeated eigenvalue its limit d_1^+
+            BetaP = np.where(
+                dif12, (valp[..., 0] - valp[..., 1]) / v1_m_v2, dvalp[..., 0]
+            )
             # BetaM = (valm[..., 0] - valm[..., 1]) / v1_m_v2
 
             # compute gammap and gammam
